@@ -10,8 +10,8 @@ ENGINES = [
   "kind_free_text": "browser <-> header-altering intermediary <-> real middleware protocol runs; executable Fetch client; independent what-the-Config-means predicate"},
  {"name": "cachesim", "path": "sim/c10.go", "serves_properties": ["C10"],
   "kind_free_text": "clients -> Vary-honouring shared cache model -> real middleware, with shadow fetch on every hit"},
- {"name": "cancelsim", "path": "sim/c19.go", "serves_properties": ["C19"],
-  "kind_free_text": "iterator-consumer party that cancels at every yield position of seeded join trees (fault F8); independent explicit-stack flattening as reference"},
+ {"name": "cancelsim", "path": "sim/c19.go sim/conc19.go + tools/instrument", "serves_properties": ["C19"],
+  "kind_free_text": "iterator-consumer party that cancels at every yield position of seeded join trees (fault F8); independent explicit-stack flattening as reference; stage 1: several consumer tasks under the baton-passing scheduler on the AST-instrumented copy (concurrent-consumers world)"},
 ]
 
 NOTES = ("Technique family: deterministic simulation with fault injection. One binary (sim/, `simcheck`), one PRNG stream per run "
@@ -20,7 +20,7 @@ NOTES = ("Technique family: deterministic simulation with fault injection. One b
 
 claim("C19", "cancelsim", "fault_enumeration",
       "deterministic simulation: seeded join trees x exhaustive enumeration of consumer-cancellation points (fault injection at every yield), independent flattening oracle",
-      "Per generated error tree every cancellation position 0..n is enumerated for three consumers (range+break, raw callback returning false and counting later calls, iter.Pull+stop); the trees (depth<=6, fan-out<=5, joins of one, nested joins) and the real configuration errors (1..8 planted violations through NewMiddleware and Reconfigure) are sampled by seed. Complete over cancellation points per tree, sampling over tree shapes: fault_enumeration is the honest level.",
+      "Per generated error tree every cancellation position 0..n is enumerated for three consumers (range+break, raw callback returning false and counting later calls, iter.Pull+stop); the trees (depth<=6, fan-out<=5, joins of one, nested joins) and the real configuration errors (1..8 planted violations through NewMiddleware and Reconfigure) are sampled by seed. Complete over cancellation points per tree, sampling over tree shapes: fault_enumeration is the honest level. Stage 1 of the check (schedule-controlled build): 2..3 consumer tasks traversing the same or unrelated error values at once, one runnable at a time, preempted at planned statement-level schedule points inside cfgerrors; half of those runs belong to sweep blocks that enumerate the suspension point of the first traversal; that stage is sampling (exploration) and is reported inside the same evidence file.",
       "Trusted: the 15-line explicit-stack flattening used as reference, pointer identity of leaves, Go's iter.Pull. Domain restricted to errors.Join trees, as cfgerrors.All documents.",
       "DESIGN §3 C19")
 
@@ -39,12 +39,12 @@ claim("C06", "histsim", "exploration",
       "DESIGN §3 C06")
 claim("C07", "concsim", "exploration",
       SIM + "plan-driven baton scheduler over an AST-instrumented copy of the working tree (preemption possible before every statement; lock acquisition simulated), burst preemptions + re-entrant operator calls at writer/handler seams, history checked for linearizability (porcupine) against the sequential real code; -race stress companion for the data-race clause",
-      "Each run executes 2..5 tasks (requests chosen to discriminate the states in play; Reconfigure/SetDebug/Config/Reconfigure(Config())/rejected Reconfigure) under a seeded schedule with 0..4 burst preemptions placed uniformly over the measured schedule points of a victim operation; the recorded invoke/return history must be linearizable w.r.t. the same code run sequentially; deadlock and panics are violations. A quarter of the runs belong to enumerating sweep blocks: 192 runs share one small scenario and run i preempts the victim operation at its i-th schedule point, so for the sampled scenarios the other party acting at every point of the victim operation is enumerated completely. Scenarios and all other schedules are sampled: exploration. The data-race clause is decided by a separate free-running -race stress, which is observation of real executions and is labelled as such.",
+      "Each run executes 2..5 tasks (requests chosen to discriminate the states in play; Reconfigure/SetDebug/Config/Reconfigure(Config())/rejected Reconfigure) under a seeded schedule with 0..4 burst preemptions placed uniformly over the measured schedule points of a victim operation; the recorded invoke/return history must be linearizable w.r.t. the same code run sequentially; deadlock and panics are violations. A quarter of the runs belong to enumerating sweep blocks: 192 runs share one small scenario and run i preempts the victim operation at its i-th schedule point, so for the sampled scenarios the other party acting at every point of the victim operation is enumerated completely; a quarter of the blocks overlap two operator calls only and end in a revealing operator call before the observing requests. Scenarios and all other schedules are sampled: exploration. The data-race clause is decided by a separate free-running -race stress, which is observation of real executions and is labelled as such.",
       "Trusted: the instrumenter (syntactic; the repository's tests are run on the instrumented copy with hooks off on every check), porcupine v1.3.0, Go's race detector. Assumes the library starts no goroutines. Histories are short (<= ~25 operations).",
       "DESIGN §3 C07")
 claim("C08", "histsim", "exploration",
       SIM + "seeded call histories with rejected-Reconfigure faults (valid configuration different from the current one + 1..4 planted documented violations) at arbitrary positions; differential oracle before/after",
-      "2..10-step histories from passthrough and configured states with debug on/off; at every rejected Reconfigure the error must be non-nil and the probe suite (incl. probes derived from the rejected configuration), Config() and the debug probe must be identical before and after; a shadow twin that lives through the same history without the rejected calls must stay indistinguishable (latent traces that only a later successful call reveals). Seeded sampling: exploration.",
+      "2..10-step histories from passthrough and configured states with debug on/off; at every rejected Reconfigure the error must be non-nil and the probe suite (incl. probes derived from the rejected configuration), Config() and the debug probe must be identical before and after; a shadow twin that lives through the same history without the rejected calls must stay indistinguishable (latent traces that only a later successful call reveals); the rejected call is also made to land inside the request stream (request, rejected Reconfigure, the same request again, at every 8th position of the suite). Seeded sampling: exploration.",
       "The violation catalogue (12 kinds, ~90 literal values) contains only cases the Config documentation calls prohibited. Differential oracle; behaviour outside the probe suite is not observed.",
       "DESIGN §3 C08")
 claim("C09", "histsim", "exploration",
